@@ -193,18 +193,26 @@ def make_factory(role, envobj, opts=None, url="ws://localhost:9000", protocols=N
         if compress is True:
             compress = {}
         from autobahn.websocket import compress as CM
+        compress = dict(compress) if isinstance(compress, dict) else compress
+        # "_cap": the accepting side limits the size of a decompressed message (max_message_size)
+        cap = compress.pop("_cap", None) if isinstance(compress, dict) else None
         if role == "server":
-            def accept(offers, _c=compress):
+            def accept(offers, _c=compress, _cap=cap):
                 for offer in offers:
                     if isinstance(offer, CM.PerMessageDeflateOffer):
-                        return CM.PerMessageDeflateOfferAccept(offer, **(_c if isinstance(_c, dict) else {}))
+                        kw = dict(_c) if isinstance(_c, dict) else {}
+                        if _cap is not None:
+                            kw["max_message_size"] = _cap
+                        return CM.PerMessageDeflateOfferAccept(offer, **kw)
             o["perMessageCompressionAccept"] = accept
         else:
             o["perMessageCompressionOffers"] = [CM.PerMessageDeflateOffer(
                 **(compress if isinstance(compress, dict) else {}))]
 
-            def accept(response):
+            def accept(response, _cap=cap):
                 if isinstance(response, CM.PerMessageDeflateResponse):
+                    if _cap is not None:
+                        return CM.PerMessageDeflateResponseAccept(response, max_message_size=_cap)
                     return CM.PerMessageDeflateResponseAccept(response)
             o["perMessageCompressionAccept"] = accept
     if o:
